@@ -362,6 +362,14 @@ def noise(repo, chk):
             and {type(v.args[0].left), type(v.args[0].right)} == {ast.Name} and {v.args[0].left.id, v.args[0].right.id} & widths and pname in (v.args[0].left.id, v.args[0].right.id)
     ks = [n for n in own_nodes(fn.node) if isinstance(n, ast.Assign) and isinstance(n.targets[0], ast.Name) and _is_k(n.value)]
     knames = {k.targets[0].id for k in ks}
+    # a count of cells that is rounded to nearest / up instead of down can exceed floor(p * n): decided positively
+    def _rounds_up(v):
+        return [x for x in ast.walk(v) if isinstance(x, ast.Call) and ((isinstance(x.func, ast.Name) and x.func.id == 'round') or (m.dotted(x.func) or '') in ('numpy.round', 'numpy.rint', 'numpy.ceil', 'math.ceil', 'numpy.around'))
+                and any(isinstance(y, ast.Name) and y.id == pname for y in ast.walk(x))]
+    for n_ in own_nodes(fn.node):
+        if isinstance(n_, ast.Assign) and isinstance(n_.targets[0], ast.Name) and _rounds_up(n_.value) and any(isinstance(y, ast.Name) and y.id in widths for y in ast.walk(n_.value)):
+            chk.bad('C20.5b', 'R15', fn.site(n_), ast.unparse(n_)[:100], 'the number of cells noise is applied to is p * n rounded to nearest / up: whenever the fractional part of p * n is at least one half it is floor(p * n) + 1, '
+                    'one cell more per feature than the at most floor(p * n) the noise may change')
     chk.expect(len(ks) == 2, 'C20.5b', 'R15', fn.site(ks[0]) if ks else fn.site(), f'{[ast.unparse(k) for k in ks]}', 'number of noisy cells per feature is floor(n * p)', 'the number of altered cells per feature must be int(n * p) for both noise types', soft=True)
     ch = [c for c in calls(fn, dotted='numpy.random.choice') if len(c.args) >= 2 and isinstance(c.args[0], ast.Name) and c.args[0].id in widths]
     ok_ch = len(ch) == 2 and all(any(k.arg == 'replace' and isinstance(k.value, ast.Constant) and k.value.value is False for k in c.keywords) and ast.unparse(c.args[1]) in knames for c in ch)
@@ -432,8 +440,11 @@ def downsample(repo, chk):
     kw = {k.arg: ast.unparse(k.value) for k in rs[0].keywords} if rs else {}
     ok_r = len(rs) == 1 and rs[0].args and ast.unparse(rs[0].args[0]) == cand_name and kw.get('n_samples') == np_ and kw.get('random_state') == seedp
     chk.expect(ok_r, 'C20.6b', 'R15', fn.site(rs[0]) if rs else fn.site(), ast.unparse(rs[0]).replace('\n', ' ')[:120] if rs else '', 'n rows are drawn from the class, reproducibly', 'resample must draw n_samples=n rows from the class candidates with random_state=seed')
-    ys = [n for n in ast.walk(cls_loop) if isinstance(n, ast.Assign) and term_of(fn, n.value, inline=False) in (E(f'[{label}] * {np_}'), E(f'{np_} * [{label}]'))]
-    chk.expect(len(ys) == 1, 'C20.6c', 'R15', fn.site(ys[0]) if ys else fn.site(cls_loop), f'[{label}] * {np_}', 'n labels of that class', f'labels of the down-sampled rows must be [{label}] * {np_} for every class')
+    rep_forms = (E(f'[{label}] * {np_}'), E(f'{np_} * [{label}]'), E(f'numpy.full({np_}, {label})'), E(f'numpy.repeat({label}, {np_})'))
+    ys = [n for n in ast.walk(cls_loop) if isinstance(n, ast.Assign) and term_of(fn, n.value, inline=False) in rep_forms]
+    # the n labels may also be written where they are appended (np.concatenate((acc, [label] * n)))
+    ys_inline = [x for x in ast.walk(cls_loop) if isinstance(x, (ast.BinOp, ast.Call)) and term_of(fn, x, inline=False) in rep_forms] if not ys else []
+    chk.expect(len(ys) == 1 or (not ys and len(ys_inline) == 1), 'C20.6c', 'R15', fn.site(ys[0]) if ys else fn.site(cls_loop), f'[{label}] * {np_}', 'n labels of that class', f'labels of the down-sampled rows must be [{label}] * {np_} for every class')
     # accumulation and result
     r = returns(fn)
     ok_ret = False
@@ -446,15 +457,18 @@ def downsample(repo, chk):
         coll = [c for c in ast.walk(cls_loop) if isinstance(c, ast.Call) and isinstance(c.func, ast.Attribute) and c.func.attr == 'append' and c.args and ast.unparse(c.args[0]) == res_name and isinstance(c.func.value, ast.Name)]
         lst = coll[0].func.value.id if coll else None
         xdefs = [n for n in own_nodes(fn.node) if isinstance(n, ast.Assign) and isinstance(n.targets[0], ast.Name) and n.targets[0].id == xa and lst and f'({lst}' in ast.unparse(n.value) and ('concatenate' in ast.unparse(n.value) or 'vstack' in ast.unparse(n.value))]
-        yacc = [n for n in ast.walk(cls_loop) if isinstance(n, ast.Assign) and isinstance(n.targets[0], ast.Name) and n.targets[0].id == ya and ys and ys[0].targets[0].id in ast.unparse(n.value) and ya in ast.unparse(n.value) and 'concatenate' in ast.unparse(n.value)]
+        yacc = [n for n in ast.walk(cls_loop) if isinstance(n, ast.Assign) and isinstance(n.targets[0], ast.Name) and n.targets[0].id == ya and ya in ast.unparse(n.value) and 'concatenate' in ast.unparse(n.value)
+                and ((ys and ys[0].targets[0].id in ast.unparse(n.value)) or (ys_inline and any(x is ys_inline[0] for x in ast.walk(n.value))))]
         ok_ret = bool(coll) and bool(xdefs) and bool(yacc)
     chk.expect(ok_ret, 'C20.6f', 'R6', fn.site(r[0]) if r else fn.site(), ast.unparse(r[0]) if r else '', 'returns (concatenated per-class rows, concatenated per-class labels)', 'downsample_dataset must return (rows of all classes concatenated, labels of all classes concatenated) in this order')
-    g = [n for n in own_nodes(fn.node) if isinstance(n, ast.If) and any(isinstance(x, ast.Raise) for x in n.body) and np_ in ast.unparse(n.test) and 'min(' in ast.unparse(n.test)]
+    g = [n for n in own_nodes(fn.node) if isinstance(n, ast.If) and any(isinstance(x, ast.Raise) for x in n.body) and np_ in ast.unparse(n.test) and
+         any(isinstance(x, tuple) and x[:2] in (('call', ('name', 'min')), ('call', ('lib', 'numpy.min'))) for x in walk_term(term_of(fn, n.test, {np_: ('role', 'n')}, inline=True)))]
     cname = None
     for n in own_nodes(fn.node):
         if isinstance(n, ast.Assign) and isinstance(n.targets[0], ast.Tuple) and 'np.unique' in ast.unparse(n.value) and len(n.targets[0].elts) == 2 and isinstance(n.targets[0].elts[1], ast.Name):
             cname = n.targets[0].elts[1].id
-    chk.expect(len(g) == 1 and term_of(fn, g[0].test, inline=False) == E(f'{np_} > min({cname})'), 'C20.6e', 'R14', fn.site(g[0]) if g else fn.site(), ast.unparse(g[0].test) if g else '', 'n larger than the minority class is rejected', 'n > min(counts) must be rejected', soft=True)
+    EB = lambda src: term_of(fn, ast.parse(src, mode='eval').body, {np_: ('role', 'n')}, inline=True)
+    chk.expect(len(g) == 1 and (term_of(fn, g[0].test, inline=False) == E(f'{np_} > min({cname})') or term_of(fn, g[0].test, {np_: ('role', 'n')}, inline=True) in (EB(f'{np_} > min({cname})'), EB(f'{np_} > np.min({cname})'))), 'C20.6e', 'R14', fn.site(g[0]) if g else fn.site(), ast.unparse(g[0].test) if g else '', 'n larger than the minority class is rejected', 'n > min(counts) must be rejected', soft=True)
 
 
 def _sibling_branches(par, a, b):
